@@ -246,6 +246,29 @@ let () =
       let n = kvi "n" head 0 and bits = kvi "bits" head 0 in
       let ops = List.filter (fun s -> s <> "") (String.split_on_char ';' (String.sub line (i + 1) (String.length line - i - 1))) in
       let f = if n = 0 then never_fail else fail_at (nat_of_int (n - 1)) in
+      if kind = "wire" then begin
+        (* no Coq model behind this kind: the DNS writer is enumerated only.  Oracle: when
+           ares_dns_write reports success the names read back are the names given *)
+        let strip s = let l = String.length s in if l > 1 && s.[l - 1] = '.' then String.sub s 0 (l - 1) else s in
+        let spec = String.concat "," (List.filter_map (fun op -> match String.split_on_char ':' op with
+            | ["q"; a] | ["an"; a] -> Some (strip a)
+            | ["ns"; a; b] -> Some (strip a ^ ">" ^ strip b)
+            | _ -> None)
+            (List.stable_sort (fun x y -> compare (String.sub x 0 1 <> "q" && String.sub x 0 1 <> "a") (String.sub y 0 1 <> "q" && String.sub y 0 1 <> "a")) ops)) in
+        let got = List.filter_map (fun l -> if starts_with "R " l then Some (String.sub l 2 (String.length l - 2)) else None) (impl_lines impl k) in
+        (match got with
+         | [g] ->
+           let parts = String.split_on_char ' ' g in
+           let st = match parts with t :: _ -> (match String.index_opt t '@' with Some j -> String.sub t 0 j | None -> t) | [] -> "?" in
+           let idump = match List.find_opt (fun t -> starts_with "dump=" t) parts with
+             | Some t -> String.sub t 5 (String.length t - 5) | None -> "?" in
+           let iend = match List.find_opt (fun t -> starts_with "end=" t) parts with
+             | Some t -> int_of_string (String.sub t 4 (String.length t - 4)) | None -> -1 in
+           Printf.printf "CASE %d %s\n" k (if n = 0 then "trivial-no-failure-wire" else if st = "0" then "wire-write-succeeds" else "wire-refused");
+           if st = "0" && idump <> spec then Printf.printf "FAIL %d wire-wrong-name given=[%s] on-the-wire=[%s]\n" k spec idump;
+           if iend <> 0 then Printf.printf "FAIL %d leak:wire blocks=%d still allocated after destroy\n" k iend
+         | _ -> Printf.printf "CASE %d trivial-no-output\n" k)
+      end else
       let got = List.filter_map (fun l -> if starts_with "R " l then Some (String.sub l 2 (String.length l - 2)) else None) (impl_lines impl k) in
       (match (try Stdlib.Ok (model kind f bits ops) with Model_ub s -> Stdlib.Error s) with
        | Stdlib.Error s ->
